@@ -71,8 +71,60 @@ func c09enumeration(tier string) []c09enum {
 	return out
 }
 
+// ---- pair matrix: two related fields of a small ICC profile damaged together
+
+var c09pairValues = []uint64{0, 1, 2, 8, 12, 16, 0xFF, 0xFFFF, 0x10000, 1<<31 - 1, 1 << 31, 1<<32 - 1, 1<<32 - 12, 1<<32 - 16}
+
+type c09pairBase struct {
+	name   string
+	data   []byte
+	fields []refmodel.Field
+}
+
+var c09pairBases []c09pairBase
+
+func c09bases() []c09pairBase {
+	if c09pairBases != nil {
+		return c09pairBases
+	}
+	add := func(name string, data []byte, fs []refmodel.Field) {
+		var keep []refmodel.Field
+		for _, f := range fs {
+			if (f.Kind == "length" || f.Kind == "count" || f.Kind == "offset") && f.Width == 4 && f.Off+4 <= len(data) {
+				keep = append(keep, f)
+			}
+		}
+		if len(keep) > 12 {
+			keep = keep[:12]
+		}
+		c09pairBases = append(c09pairBases, c09pairBase{name, data, keep})
+	}
+	m := refmodel.DrawICC(tape.New(0xA11CE, nil), refmodel.ICCOpts{DescKind: 2, MaxTags: 2})
+	add("generated mluc profile: "+m.Summary, m.Bytes, m.Fields)
+	v := refmodel.DrawICC(tape.New(0xB0B, nil), refmodel.ICCOpts{DescKind: 1, MaxTags: 2})
+	add("generated v2 profile: "+v.Summary, v.Bytes, v.Fields)
+	fan := refmodel.BuildMLUCFanIn(3, 8)
+	add("3-record mluc profile", fan.Bytes, refmodel.WalkFields(fan.Bytes))
+	for _, c := range Corpus() {
+		if len(c.Data) >= 132 && string(c.Data[36:40]) == "acsp" {
+			add(c.Name, c.Data, c.Fields)
+		}
+	}
+	return c09pairBases
+}
+
+func c09pairCount() int64 {
+	var n int64
+	nv := int64(len(c09pairValues) + 2)
+	for _, b := range c09bases() {
+		k := int64(len(b.fields))
+		n += k * (k - 1) / 2 * nv * nv
+	}
+	return n
+}
+
 func (c09) Runs(tier string) int64 {
-	n := int64(len(c09enumeration(tier)))
+	n := int64(len(c09enumeration(tier))) + c09pairCount()
 	if tier == "thorough" {
 		return n + 8000000
 	}
@@ -81,13 +133,25 @@ func (c09) Runs(tier string) int64 {
 func (c09) Prefix(tier string, i int64) []uint64 {
 	e := c09enumeration(tier)
 	if i >= int64(len(e)) {
+		i -= int64(len(e))
+		nv := int64(len(c09pairValues) + 2)
+		for bi, b := range c09bases() {
+			k := int64(len(b.fields))
+			per := k * (k - 1) / 2 * nv * nv
+			if i < per {
+				pair := i / (nv * nv)
+				r := i % (nv * nv)
+				return []uint64{2, uint64(bi), uint64(pair), uint64(r / nv), uint64(r % nv)}
+			}
+			i -= per
+		}
 		return []uint64{1}
 	}
 	x := e[i]
 	return []uint64{0, uint64(x.file), uint64(x.field), uint64(x.value), uint64(x.loader)}
 }
 
-var c09weights = InputWeights{Corpus: 1, Valid: 1, ICCDamaged: 2, Damaged: 10, Random: 1, SigJunk: 2, Polyglot: 1, Empty: 0}
+var c09weights = InputWeights{Corpus: 1, Valid: 1, ICCDamaged: 2, Damaged: 10, Random: 1, SigJunk: 2, Polyglot: 1, Empty: 0, ShortSOF: 1}
 
 func sniffLoader(b []byte) Loader {
 	switch {
@@ -139,7 +203,44 @@ func (c09) Run(t *tape.Tape, st *Stats) *Violation {
 	var faults []string
 	loaderSel := -1
 	pngICCP := false
-	if t.Draw(2) == 0 {
+	mode := t.Draw(3)
+	if mode == 2 {
+		// pair matrix: two related length / count / offset fields of a small
+		// profile overwritten together (a defect may need both, e.g. a record
+		// size of zero AND a huge record count)
+		bs := c09bases()
+		b := bs[t.Intn(len(bs))]
+		k := len(b.fields)
+		pi := t.Intn(k * (k - 1) / 2)
+		nv := len(c09pairValues) + 2
+		v1i, v2i := t.Intn(nv), t.Intn(nv)
+		fa, fb := 0, 1
+		for a, c := 0, 0; a < k; a++ {
+			for bb := a + 1; bb < k; bb++ {
+				if c == pi {
+					fa, fb = a, bb
+				}
+				c++
+			}
+		}
+		data = append([]byte{}, b.data...)
+		fields, desc, class, isICC, faulted = b.fields, b.name, "icc-pair-matrix", true, true
+		for _, fv := range [][2]int{{fa, v1i}, {fb, v2i}} {
+			f := b.fields[fv[0]]
+			cur := refmodel.GetBE(data, f.Off, 4)
+			var v uint64
+			switch {
+			case fv[1] < len(c09pairValues):
+				v = c09pairValues[fv[1]]
+			case fv[1] == len(c09pairValues):
+				v = (cur + 1) & 0xFFFFFFFF
+			default:
+				v = uint64(len(data) - f.Off)
+			}
+			refmodel.PutBE(data, f.Off, 4, v)
+			faults = append(faults, fmt.Sprintf("set %s@%d = %#x (was %#x)", f.Name, f.Off, v, cur))
+		}
+	} else if mode == 0 {
 		// enumerated matrix: file, field, boundary value, loader
 		c := Corpus()
 		f := c[t.Intn(len(c))]
